@@ -440,9 +440,11 @@ func genericRun(c *ev.Case, deep bool) {
 		size = rng.Pick(255, 256, 600, 1023, 1024, 2100)
 		nops = rng.Pick(1000, 2500)
 	}
+	c.Add(s.pfx+"order "+ord.name, 1)
 	if !s.init(initialKeys(rng, g, size, ord), ord, rng.Chance(1, 3)) {
 		return
 	}
+	c.Add(s.pfx+"container_"+s.h.kind(), 1)
 	phase := 0
 	for i := 0; i < nops; i++ {
 		if i%25 == 0 {
@@ -476,6 +478,7 @@ func genericRun(c *ev.Case, deep bool) {
 					s.note('s', idx, it.K)
 				}
 			}
+			c.Add(s.pfx+"init_again_after_invalidation", 1)
 			ok = s.reinit("Init(h) again on %v", iv(s.contents()))
 		default:
 			ok = s.push(g.next())
